@@ -45,6 +45,22 @@ type Own struct {
 	// targets with COMPOSITE STRING keys (parts contain the identity-key separator and escape character)
 	CKids []CKid `gorm:"foreignKey:OwnID"`
 	CTags []CTag `gorm:"many2many:own_ctags"`
+	// has many / has one whose foreign key REFERENCES a non-primary field of the owner: the stored
+	// link value is the owner's MemberNumber, never its ID (the two differ for every owner, and one
+	// owner's MemberNumber equals another owner's ID)
+	MemberNumber int64
+	Cards        []Card `gorm:"foreignKey:OwnerNumber;references:MemberNumber"`
+	Pass         *Pass  `gorm:"foreignKey:OwnerNumber;references:MemberNumber"`
+}
+type Card struct {
+	ID          int64 `gorm:"primaryKey"`
+	Name        string
+	OwnerNumber *int64
+}
+type Pass struct {
+	ID          int64 `gorm:"primaryKey"`
+	Name        string
+	OwnerNumber *int64
 }
 type CKid struct {
 	A     string `gorm:"primaryKey"`
@@ -120,6 +136,7 @@ type RelD struct {
 	Poly   bool
 	TypeC  string // polymorphic: type column ("" = owner_type)
 	CK     bool   // the target's primary key is the composite string key (a, b); ids are mapped through ckKeys
+	Ref    bool   // the fk column holds the owner's member_number (overridden reference), not its id
 	JTable string
 	JOwner string
 	JTgt   string
@@ -141,8 +158,10 @@ var rels = map[string]RelD{
 	"CKids":    {Name: "CKids", Kind: "KHasMany", Table: "c_kids", FK: "own_id", CK: true, Elem: reflect.TypeOf(CKid{})},
 	"CTags":    {Name: "CTags", Kind: "KM2M", Table: "c_tags", JTable: "own_ctags", JOwner: "own_id", JTgt: "c_tag", CK: true, Elem: reflect.TypeOf(CTag{})},
 	"Stickers": {Name: "Stickers", Kind: "KHasMany", Table: "stickers", FK: "o_id", Poly: true, TypeC: "kind", Elem: reflect.TypeOf(Sticker{})},
+	"Cards":    {Name: "Cards", Kind: "KHasMany", Table: "cards", FK: "owner_number", Ref: true, Elem: reflect.TypeOf(Card{})},
+	"Pass":     {Name: "Pass", Kind: "KHasOne", Table: "passes", FK: "owner_number", Ref: true, Elem: reflect.TypeOf(Pass{})},
 }
-var relNames = []string{"One", "Many", "Notes", "Notes", "Badge", "Target", "Tags", "PTags", "OneV", "TargetV", "Friends", "XTags", "Stickers", "CKids", "CKids", "CTags", "CTags"}
+var relNames = []string{"One", "Many", "Notes", "Notes", "Badge", "Target", "Tags", "PTags", "OneV", "TargetV", "Friends", "XTags", "Stickers", "CKids", "CKids", "CTags", "CTags", "Cards", "Cards", "Pass"}
 
 func (r RelD) typeCol() string {
 	if r.TypeC != "" {
@@ -285,6 +304,43 @@ type Snap struct {
 type Env struct {
 	db  *gorm.DB
 	sql *sql.DB
+	// member numbers of the current history: owner id -> member_number and back.  The owners, sorted,
+	// are numbered cyclically: each owner's member number is the NEXT owner's id, the last one's is 77.
+	ref, unref map[int64]int64
+}
+
+const strayRef = 5000 // a stored reference value that is no owner's member number reads as owner strayRef + value
+
+func (e *Env) setRefs(owners []int64) {
+	e.ref, e.unref = map[int64]int64{}, map[int64]int64{}
+	os := sorted(owners)
+	for i, o := range os {
+		m := int64(77)
+		if i+1 < len(os) {
+			m = os[i+1]
+		}
+		e.ref[o], e.unref[m] = m, o
+	}
+}
+
+// stored: the value the fk column holds for a link to owner o; ownerOf: the owner a stored value names.
+func (e *Env) stored(r RelD, o int64) int64 {
+	if !r.Ref {
+		return o
+	}
+	if m, ok := e.ref[o]; ok {
+		return m
+	}
+	return strayRef + o
+}
+func (e *Env) ownerOf(r RelD, v int64) int64 {
+	if !r.Ref {
+		return v
+	}
+	if o, ok := e.unref[v]; ok {
+		return o
+	}
+	return strayRef + v
 }
 
 func (e *Env) ints(q string, args ...interface{}) []int64 {
@@ -318,7 +374,7 @@ func (e *Env) linksOf(r RelD, owner int64) []int64 {
 	if r.Poly {
 		return sorted(e.ints("SELECT "+r.idExpr()+" FROM "+r.Table+" WHERE "+r.FK+" = ? AND "+r.typeCol()+" = 'xp'", owner))
 	}
-	return sorted(e.ints("SELECT "+r.idExpr()+" FROM "+r.Table+" WHERE "+r.FK+" = ?", owner))
+	return sorted(e.ints("SELECT "+r.idExpr()+" FROM "+r.Table+" WHERE "+r.FK+" = ?", e.stored(r, owner)))
 }
 
 // othersOf reads, by raw SQL, every link of the relation's tables that does not belong to the handle:
@@ -368,6 +424,7 @@ func (e *Env) othersOf(r RelD, handle []int64) [][2]int64 {
 			var id, o int64
 			var ty string
 			lib.Must(rows.Scan(&id, &o, &ty))
+			o = e.ownerOf(r, o)
 			if ty != "xp" {
 				out = append(out, [2]int64{id, o + polyOther})
 			} else if !in(o) {
@@ -413,7 +470,7 @@ type Result struct {
 }
 
 func (e *Env) reset() {
-	for _, t := range []string{"c_kids", "c_tags", "own_ctags", "one_vs", "tgt_vs", "x_tags", "stickers", "own_friends", "own_xtags", "owns", "ones", "manies", "notes", "badges", "tgts", "tags", "p_tags", "own_tags", "own_ptags"} {
+	for _, t := range []string{"cards", "passes", "c_kids", "c_tags", "own_ctags", "one_vs", "tgt_vs", "x_tags", "stickers", "own_friends", "own_xtags", "owns", "ones", "manies", "notes", "badges", "tgts", "tags", "p_tags", "own_tags", "own_ptags"} {
 		lib.Must(e.db.Exec("DELETE FROM " + t).Error)
 	}
 	e.db.Exec("DELETE FROM sqlite_sequence")
@@ -423,8 +480,9 @@ func (e *Env) run(in Input) Result {
 	r := rels[in.Rel]
 	e.reset()
 	db := e.db
+	e.setRefs(append(append([]int64{}, in.Owners...), in.Outside...))
 	for _, o := range append(append([]int64{}, in.Owners...), in.Outside...) {
-		lib.Must(db.Exec("INSERT INTO owns (id, name) VALUES (?, ?)", o, fmt.Sprint("o", o)).Error)
+		lib.Must(db.Exec("INSERT INTO owns (id, name, member_number) VALUES (?, ?, ?)", o, fmt.Sprint("o", o), e.ref[o]).Error)
 	}
 	for _, t := range in.Targets {
 		switch {
@@ -456,7 +514,7 @@ func (e *Env) run(in Input) Result {
 					ka, kb := ckKey(l.Target)
 					lib.Must(db.Exec("UPDATE "+r.Table+" SET "+r.FK+" = ? WHERE a = ? AND b = ?", l.Owner, ka, kb).Error)
 				} else {
-					lib.Must(db.Exec("UPDATE "+r.Table+" SET "+r.FK+" = ? WHERE id = ?", l.Owner, l.Target).Error)
+					lib.Must(db.Exec("UPDATE "+r.Table+" SET "+r.FK+" = ? WHERE id = ?", e.stored(r, l.Owner), l.Target).Error)
 				}
 			}
 		}
@@ -499,6 +557,9 @@ func (e *Env) run(in Input) Result {
 			var ty string
 			lib.Must(rows.Scan(&id, &fk, &ty))
 			f := fk.Int64
+			if fk.Valid {
+				f = e.ownerOf(r, f)
+			}
 			if fk.Valid && r.Poly && ty != "xp" {
 				f += polyOther
 			}
@@ -893,8 +954,8 @@ func genInput(r *lib.Rng, maxOps int, edge bool) Input {
 				k := 1
 				if !singleValued {
 					k = r.Range(1, 3)
-					if !in.Single && r.Chance(1, 5) {
-						k = 0
+					if (!in.Single && r.Chance(1, 5)) || (in.Single && r.Chance(1, 10)) {
+						k = 0 // an explicitly EMPTY slice argument: Append(&[]T{}) changes nothing, Replace(&[]T{}) clears
 					}
 				}
 				v := []int64{}
@@ -918,6 +979,9 @@ func genInput(r *lib.Rng, maxOps int, edge bool) Input {
 				op.Vals = append(op.Vals, v)
 			}
 			op.SamePtr, op.AsSlice = r.Bool(), r.Bool()
+			if in.Single && len(op.Vals[0]) == 0 {
+				op.AsSlice = true // (variadic with no element would be the call without arguments)
+			}
 			if r.Chance(1, 5) {
 				op.Array = lib.Pick(r, []string{"values", "ptrs"})
 			}
@@ -987,6 +1051,7 @@ func sigOther(in Input) string {
 	}
 	fresh := int64(-1000)
 	var created []int64
+	var mem0 []int64
 	for _, op := range in.Ops {
 		any := false
 		for _, s := range sets {
@@ -1014,13 +1079,34 @@ func sigOther(in Input) string {
 			}
 			del = append(del, t)
 		}
+		if op.Op == "delete" && op.Alias && len(mem0) > 0 {
+			del = []int64{mem0[0]} // the argument is the record the first owner holds first
+		}
 		if op.None {
 			if op.Op == "replace" { // Replace() = Clear
 				for i := range sets {
 					sets[i] = map[int64]bool{}
 				}
+				mem0 = nil
 			}
 			continue
+		}
+		// the ordered in-memory field of the first owner (what an alias Delete names)
+		switch op.Op {
+		case "append":
+			mem0 = append(mem0, vals[0]...)
+		case "replace":
+			mem0 = append([]int64{}, vals[0]...)
+		case "clear":
+			mem0 = nil
+		case "delete":
+			var kept []int64
+			for _, t := range mem0 {
+				if !containsI(del, t) {
+					kept = append(kept, t)
+				}
+			}
+			mem0 = kept
 		}
 		if rel.Kind == "KM2M" && op.Op == "replace" && len(in.Owners) > 1 {
 			for i, s := range sets {
@@ -1089,7 +1175,7 @@ func containsI(xs []int64, x int64) bool {
 // scoped and Unscoped; then linked again and replaced by arrays.
 func targetedInputs() []Input {
 	var out []Input
-	names := []string{"One", "Many", "Notes", "Badge", "Target", "Tags", "PTags", "OneV", "TargetV", "Friends", "XTags", "Stickers", "CKids", "CTags"}
+	names := []string{"One", "Many", "Notes", "Badge", "Target", "Tags", "PTags", "OneV", "TargetV", "Friends", "XTags", "Stickers", "CKids", "CTags", "Cards", "Pass"}
 	for _, rn := range names {
 		rel := rels[rn]
 		shared := rel.Kind == "KBelongs" || rel.Kind == "KM2M"
@@ -1151,7 +1237,7 @@ func main() {
 	a := lib.ParseArgs()
 	db, _, sqlDB, err := gdb.Open(gdb.Opt{})
 	lib.Must(err)
-	lib.Must(db.AutoMigrate(&Tgt{}, &Tag{}, &PTag{}, &TgtV{}, &XTag{}, &Own{}, &One{}, &Many{}, &Note{}, &Badge{}, &OneV{}, &Sticker{}, &CTag{}, &CKid{}))
+	lib.Must(db.AutoMigrate(&Tgt{}, &Tag{}, &PTag{}, &TgtV{}, &XTag{}, &Own{}, &One{}, &Many{}, &Note{}, &Badge{}, &OneV{}, &Sticker{}, &CTag{}, &CKid{}, &Card{}, &Pass{}))
 	env := &Env{db: db, sql: sqlDB}
 	out := lib.NewOut(a.Out, "C12")
 	out.PerFile = 200
@@ -1251,6 +1337,6 @@ func main() {
 		out.Count("known_shape", sig(in))
 		add(kind, in)
 	}
-	out.Extra["rule"] = "cases = histories of 1..8 (thorough 12) operations Append/Replace/Delete/Clear, each scoped or Unscoped, on one relation of kind {has one (pointer field / field by value), has many (by tags / by naming convention), polymorphic has many and polymorphic has one (next to rows of ANOTHER owner type that carry the same owner ids, and that may be moved into the relation or named in its Delete), belongs to, belongs to by value, many2many with struct elements / pointer elements / every key named by tags / self-referential, polymorphic with renamed type and id columns, has many / many2many whose TARGETS have composite string keys that differ only in where the identity-key separator and escape character sit}, optionally with Session{FullSaveAssociations: true}, through db.Model(&owner) or db.Model(&owners) (a fresh *Association per call, or - one history in five - ONE handle kept and reused for every operation, Count and Find) with 1..3 owners that start without links, next to 0..2 outside owners with existing links; every operation also with no target at all (Append(), Replace(), Delete()); targets are new records, existing unlinked rows, rows linked to the same owner, rows linked to outside owners, and duplicates (equal copies or THE SAME object repeated inside a slice argument and followed by further targets; variadic, one slice argument, or a Go array &[N]T / [N]*T; Delete may name the very record held by the first owner's relation field); Count(), Find(), raw foreign keys / join rows of the handle AND of every other owner / owner type, the target table and the in-memory fields are read after every operation; domain: for has one / has many / polymorphic a target is never given to two different owners of one handle; distinct = distinct (relation, handle, table sizes, operation sequence with sizes) shapes; non-trivial = the stored links change at least twice"
+	out.Extra["rule"] = "cases = histories of 1..8 (thorough 12) operations Append/Replace/Delete/Clear, each scoped or Unscoped, on one relation of kind {has one (pointer field / field by value), has many (by tags / by naming convention), polymorphic has many and polymorphic has one (next to rows of ANOTHER owner type that carry the same owner ids, and that may be moved into the relation or named in its Delete), belongs to, belongs to by value, many2many with struct elements / pointer elements / every key named by tags / self-referential, polymorphic with renamed type and id columns, has many / many2many whose TARGETS have composite string keys that differ only in where the identity-key separator and escape character sit, has many / has one whose foreign key references a NON-primary owner field (member number != id; one owner's member number is another owner's id)}, optionally with Session{FullSaveAssociations: true}, through db.Model(&owner) or db.Model(&owners) (a fresh *Association per call, or - one history in five - ONE handle kept and reused for every operation, Count and Find) with 1..3 owners that start without links, next to 0..2 outside owners with existing links; every operation also with no target at all (Append(), Replace(), Delete()); targets are new records, existing unlinked rows, rows linked to the same owner, rows linked to outside owners, and duplicates (equal copies or THE SAME object repeated inside a slice argument and followed by further targets; variadic, one slice argument, or a Go array &[N]T / [N]*T; Delete may name the very record held by the first owner's relation field); Count(), Find(), raw foreign keys / join rows of the handle AND of every other owner / owner type, the target table and the in-memory fields are read after every operation; domain: for has one / has many / polymorphic a target is never given to two different owners of one handle; distinct = distinct (relation, handle, table sizes, operation sequence with sizes) shapes; non-trivial = the stored links change at least twice"
 	lib.Must(out.Flush())
 }
